@@ -219,6 +219,16 @@ def build_order_cases(rng, count, next_id):
                         {"parts": [[length - reach - 2, length - reach - 1]], "strand": 1}):
                 if all(g["loc"] != loc for g in genes):
                     genes.append({"loc": loc, "core_for": ["c"]})
+        if rng.random() < 0.3 and length >= 12:
+            # two overlapping subregions and a gene over the edge of both: inside their region, inside neither of them
+            at = rng.randrange(0, length - 7)
+            for first, last in ((at, at + 4), (at + 3, at + 7)):
+                ext = {"parts": [[first, last]], "strand": 1}
+                areas.append({"kind": "sub", "core": ext, "extent": ext, "product": "sub"})
+            loc = {"parts": [[at + 2, at + 5]], "strand": rng.choice([1, -1])}
+            del genes[4:]
+            if all(g["loc"] != loc for g in genes):
+                genes.append({"loc": loc, "core_for": []})
         uni = {"L": length, "circ": circ, "genes": genes, "areas": areas}
         build = [{"op": "AddSub" if a["kind"] == "sub" else "AddProto", "arg": i + 1} for i, a in enumerate(areas)]
         rng.shuffle(build)
@@ -245,6 +255,14 @@ def build_order_cases(rng, count, next_id):
             rng.shuffle(mixed)
             tail = build[len(build) - (2 if build[-2]["op"] == "CreateCandidates" else 1):]
             hist, log_from = mixed + tail, 0
+        if rng.random() < 0.4:
+            # areas are taken away again (and regions rebuilt from what is left): genes point to what contains them now
+            tails = [["ClearRegions"], ["ClearRegions", "CreateRegions"]]
+            if any(a["kind"] == "sub" for a in areas):
+                tails.append(["ClearSubs"])
+            if any(a["kind"] == "proto" for a in areas):
+                tails.append(["ClearProtos"])
+            hist = hist + [{"op": op, "arg": 0} for op in rng.choice(tails)]
         cases.append({"id": next_id, "uni": uni, "hist": hist, "log_from": log_from, "sampled": True})
         next_id += len(hist)
     return cases, next_id
